@@ -215,7 +215,7 @@ impl Canary {
     fn new(label: &'static str, rng: &mut Rng, awkward: bool) -> Canary {
         // real keys come in shapes that code may treat differently: vendor prefixes, all-capital tokens that look
         // like environment-variable names, ids
-        let shape = if awkward { 0 } else { rng.below(5) };
+        let shape = if awkward { 0 } else { rng.below(6) };
         let mut core = rng.hex(16);
         let mut tail = rng.hex(12);
         let value = match shape {
@@ -227,6 +227,14 @@ impl Canary {
                 format!("RVK_{}_{core}_{tail}", label.to_uppercase())
             }
             3 => format!("sk-proj-{label}{core}T3BlbkFJ{tail}"),
+            // short keys (local gateways, dev tokens): 7 or 8 characters in all
+            5 => {
+                let n = if rng.bool() { 4 } else { 5 };
+                let v = format!("sk-{}", rng.hex(n));
+                core = v.clone();
+                tail = v.clone();
+                v
+            }
             _ => {
                 core = core.to_uppercase();
                 tail = tail.to_uppercase();
@@ -325,6 +333,20 @@ impl<'a> Scanner<'a> {
                     ex.push_str(&String::from_utf8_lossy(&hay[pos + n.len()..b]));
                     self.leaks.push(Leak { sink: sink.to_string(), canary: c.label, encoding: enc, excerpt: ex });
                     break; // one hit per canary and sink is enough
+                }
+            }
+            // diagnostics may say that a secret is present and where it came from, nothing of the secret itself: a
+            // "masked" rendering that keeps the head and the tail of the value is looked for in the (small) doctor
+            // answers only, where both ends occurring together cannot be chance
+            if sink.contains("doctor") && c.value.len() >= 16 && c.value.is_char_boundary(4) && c.value.is_char_boundary(c.value.len() - 4) {
+                let head = &c.value.as_bytes()[..4];
+                let tail = &c.value.as_bytes()[c.value.len() - 4..];
+                if let (Some(ph), Some(pt)) = (find(hay, head), find(hay, tail)) {
+                    if !self.leaks.iter().any(|l| l.sink == sink && l.canary == c.label) {
+                        let a = ph.min(pt).saturating_sub(40);
+                        let ex = format!("{}«HEAD/TAIL OF CANARY»", String::from_utf8_lossy(&hay[a..ph.min(pt)]));
+                        self.leaks.push(Leak { sink: sink.to_string(), canary: c.label, encoding: "head_and_tail_of_the_value", excerpt: ex });
+                    }
                 }
             }
         }
